@@ -30,10 +30,11 @@ def attest_harness(chain, oracles, bridgers, maxnonce, stake):
 
 
 O2, O3, B3, B4 = ["o1", "o2"], ["o1", "o2", "o3"], ["b1", "b2", "b3"], ["b1", "b2", "b3", "b4"]
-STAKES = {"StakeEdge2": {"o1": 65, "o2": 35}, "StakeEdge3": {"o1": 34, "o2": 33, "o3": 33}, "StakeEq": {"o1": 1, "o2": 1, "o3": 1}}
+STAKES = {"StakeEdge2": {"o1": 65, "o2": 35}, "StakeOdd2": {"o1": 100, "o2": 99}, "StakeEdge3": {"o1": 34, "o2": 33, "o3": 33}, "StakeEq": {"o1": 1, "o2": 1, "o3": 1}}
 
 ATTEST_MC = [
     dict(name="mc2", tiers=["quick", "thorough"], consts=attest_consts(O2, B3, 2, 2, 3), overrides={"Stake": "StakeEdge2"}),
+    dict(name="mc2odd", tiers=["quick", "thorough"], consts=attest_consts(O2, B3, 2, 2, 3), overrides={"Stake": "StakeOdd2"}),
     dict(name="mc3", tiers=["thorough"], consts=attest_consts(O3, B4, 2, 2, 4), overrides={"Stake": "StakeEdge3"}, timeout=2400),
 ]
 ATTEST_GEN = [
@@ -41,6 +42,8 @@ ATTEST_GEN = [
          harness=[attest_harness("eth", O2, B3, 2, STAKES["StakeEdge2"])], shards=14, rej_sample=2),
     dict(name="gen2", tiers=["quick"], consts=attest_consts(O2, B3, 2, 2, 3), overrides={"Stake": "StakeEdge2"},
          harness=[attest_harness("eth", O2, B3, 2, STAKES["StakeEdge2"])], shards=14, rej_sample=2),
+    dict(name="gen2odd", tiers=["quick", "thorough"], consts=attest_consts(O2, B3, 2, 1, 2), overrides={"Stake": "StakeOdd2"},
+         harness=[attest_harness("eth", O2, B3, 2, STAKES["StakeOdd2"])], shards=14, rej_sample=2),
     dict(name="gen2full", tiers=["thorough"], consts=attest_consts(O2, B3, 2, 2, 3), overrides={"Stake": "StakeEdge2"},
          harness=[attest_harness("eth", O2, B3, 2, STAKES["StakeEdge2"]), attest_harness("tron", O2, B3, 2, STAKES["StakeEdge2"])],
          shards=16, rej_sample=0),
